@@ -6,6 +6,9 @@
 //                              o:<hex>                  inject the OPEN as Event::BgpOpen / BgpOpenWithDelayOpenTimerRunning (by handle_msg)
 //                              m:<hex>                  handle_msg on the message decoded from these octets (with the connection's config)
 //                              E:<EventName>:<hex>      inject BgpOpen / BgpOpenWithDelayOpenTimerRunning with this OPEN regardless of the timer
+//                              U:<n>:<hex>              handle_msg on this message n times back to back (a burst; stops at the first error)
+//                              A:<hex>                  a new connection: the peer writes these octets, Session::attach_stream gets the socket
+//                              t:<hex> / c              the peer writes these octets / closes, the session runs one tick
 //        after every step one field: state,crc,timers,conn,four,addpath | out | app | result
 //   FRM <id> <chunk hex>,<chunk hex>,...       push chunks into Connection and extract frames
 //   RDM <id> <hex>                             read_message on this source
@@ -75,9 +78,9 @@ async fn pair() -> Pair {
 fn fam_s(t: AfiSafiType) -> String { let (a, s): (u16, u8) = t.into(); format!("{a}.{s}") }
 
 async fn fsm_case(delay_open: bool, hold: u16, ap: &str, steps: &str) -> String {
-    let mut pr = pair().await;
-    let rd = pr.rd.take().unwrap();
-    let peer = &mut pr.peer;
+    // one socket pair per connection of the case: the first goes into Session::new, every `A` step attaches another one
+    let mut pairs = vec![pair().await];
+    let rd = pairs[0].rd.take().unwrap();
     let addpath: Vec<AfiSafiType> = if ap == "-" { vec![] } else {
         ap.split(',').map(|e| { let (a, s) = e.split_once('.').unwrap(); AfiSafiType::from((a.parse::<u16>().unwrap(), s.parse::<u8>().unwrap())) }).collect() };
     let (app_tx, mut app_rx) = mpsc::channel::<Message>(64);
@@ -89,14 +92,41 @@ async fn fsm_case(delay_open: bool, hold: u16, ap: &str, steps: &str) -> String 
     let mut upd_id = 0u32;
     for st in steps.split(';').filter(|x| !x.is_empty()) {
         let parts: Vec<&str> = st.split(':').collect();
+        if parts[0] == "A" { pairs.push(pair().await); }
+        let np = pairs.len() - 1;
+        let new_rd = if parts[0] == "A" { pairs[np].rd.take() } else { None };
+        let peer = &mut pairs[np].peer;
         let fut = async {
             match parts[0] {
+                "A" => {
+                    // Session::attach_stream waits for the new socket to become readable: the peer has written something (its OPEN)
+                    use tokio::io::AsyncWriteExt;
+                    peer.write_all(&unhex(parts[1])).await.unwrap();
+                    peer.flush().await.unwrap();
+                    match tokio::time::timeout(std::time::Duration::from_millis(3000), s.attach_stream(new_rd.unwrap())).await {
+                        Ok(()) => Ok(()),
+                        Err(_) => Err(()),
+                    }
+                }
                 "e" => s.verif_inject(event_of(parts[1], None)).await.map_err(|_| ()),
                 "E" => { let o = OpenMessage::from_octets(Bytes::from(unhex(parts[2]))).unwrap(); s.verif_inject(event_of(parts[1], Some(o))).await.map_err(|_| ()) }
                 "m" | "o" => {
                     let b = Bytes::from(unhex(parts[1]));
                     let sc = s.verif_connection_mut().map(|c| c.session_config_mut().clone()).unwrap_or(routecore::bgp::message::SessionConfig::modern());
                     match BgpMsg::from_octets(b, Some(&sc)) { Ok(m) => s.verif_handle_msg(m).await.map_err(|_| ()), Err(_) => Err(()) }
+                }
+                "U" => {
+                    // a burst: the same message n times back to back; the application takes messages off its queue only when the
+                    // session waits for it (see the select below), as a consumer slower than the session would
+                    let n: usize = parts[1].parse().unwrap();
+                    let b = Bytes::from(unhex(parts[2]));
+                    let mut r = Ok(());
+                    for _ in 0..n {
+                        let sc = s.verif_connection_mut().map(|c| c.session_config_mut().clone()).unwrap_or(routecore::bgp::message::SessionConfig::modern());
+                        r = match BgpMsg::from_octets(b.clone(), Some(&sc)) { Ok(m) => s.verif_handle_msg(m).await.map_err(|_| ()), Err(_) => Err(()) };
+                        if r.is_err() { break; }
+                    }
+                    r
                 }
                 "t" => {
                     // black box: the peer writes these octets, the session runs one tick
@@ -122,8 +152,19 @@ async fn fsm_case(delay_open: bool, hold: u16, ap: &str, steps: &str) -> String 
             }
         };
         // a panic inside the session is an observation
-        let r = std::panic::AssertUnwindSafe(fut);
-        let r = futures_catch(r).await;
+        // the application side of the queue: while the step is waiting (a full queue towards the application), take one message
+        let mut app_early: Vec<Message> = vec![];
+        let r = {
+            let r = futures_catch(std::panic::AssertUnwindSafe(fut));
+            tokio::pin!(r);
+            loop {
+                tokio::select! {
+                    biased;
+                    x = &mut r => break x,
+                    Some(m) = app_rx.recv() => app_early.push(m),
+                }
+            }
+        };
         let res = match r { None => "PANIC", Some(Ok(())) => "ok", Some(Err(())) => "err" };
         let (state, crc, t, conn) = s.verif_snapshot();
         let cfgs = match s.verif_connection_mut() {
@@ -148,7 +189,8 @@ async fn fsm_case(delay_open: bool, hold: u16, ap: &str, steps: &str) -> String 
                                BgpMsg::Update(_) => "update".to_string(), BgpMsg::RouteRefresh(_) => "rr".to_string() });
         }
         let mut app = vec![];
-        while let Ok(m) = app_rx.try_recv() {
+        while let Ok(m) = app_rx.try_recv() { app_early.push(m); }
+        for m in app_early {
             app.push(match m { Message::UpdateMessage(_) => { upd_id += 1; "update".to_string() } Message::NotificationMessage(_) => "notification".to_string(),
                                Message::SessionNegotiated(n) => format!("negotiated:{}", n.remote_asn().into_u32()),
                                Message::ConnectionLost(_) => "lost".to_string(), Message::Attributes(_) => "attrs".to_string() });
